@@ -2,7 +2,7 @@
    (Gen.C13Gen) that discharge the hypotheses of Proofs.C13_AdaptiveProofs. *)
 From Coq Require Import List Arith Bool ZArith QArith Lia.
 Import ListNotations.
-Require Import Model.C12_Refine Model.C12_Geom Model.C13_Adaptive.
+Require Import Model.C12_Refine Model.C12_Geom Model.C13_Adaptive Proofs.C12_GlobalProofs.
 Require Import Proofs.C12_RefineProofs Proofs.C12_GeomProofs Proofs.C13_AdaptiveProofs Gen.C13Gen.
 Local Open Scope nat_scope.
 
@@ -76,3 +76,8 @@ Proof. intros H. rewrite (grouped_length res flat cls cs H). cbn. lia. Qed.
 
 (* MeshLine1._adaptive: the subdomain map in force gives the cells that replace cell k *)
 Definition line_map_ok : Prop := forall nt marked k, gen_line_adapt_children nt marked k = line_children nt marked k.
+
+Lemma tri13_rf2_ok : rf2_ok 3 gen13_tri_rfacets.
+Proof.
+  intros a Ha. destruct a as [|[|[|a]]]; simpl in Ha; try lia; eexists _, _; (split; [reflexivity|]); repeat split; lia.
+Qed.
